@@ -24,6 +24,7 @@ import (
 	"fmt"
 
 	"github.com/gontainer/gontainer-helpers/v3/grouperror"
+	"github.com/gontainer/gontainer/internal/pkg/maps"
 	"github.com/gontainer/gontainer/internal/pkg/regex"
 )
 
@@ -85,20 +86,20 @@ func ValidateMetaContainerConstructor(m Meta) error {
 
 func ValidateMetaImports(m Meta) error {
 	var errs []error
-	for a, imp := range m.Imports {
+	maps.Iterate(m.Imports, func(a string, imp string) {
 		if !regexMetaImport.MatchString(imp) {
 			errs = append(errs, fmt.Errorf("invalid import %+q", imp))
 		}
 		if !regexMetaImportAlias.MatchString(a) {
 			errs = append(errs, fmt.Errorf("invalid alias %+q", a))
 		}
-	}
+	})
 	return grouperror.Prefix("imports: ", errs...)
 }
 
 func ValidateMetaFunctions(m Meta) error {
 	var errs []error
-	for fn, goFn := range m.Functions {
+	maps.Iterate(m.Functions, func(fn string, goFn string) {
 		if !regexMetaFn.MatchString(fn) {
 			errs = append(errs, fmt.Errorf("invalid function %+q", fn))
 		}
@@ -106,6 +107,6 @@ func ValidateMetaFunctions(m Meta) error {
 		if !regexMetaGoFn.MatchString(goFn) {
 			errs = append(errs, fmt.Errorf("invalid go function %+q", goFn))
 		}
-	}
+	})
 	return grouperror.Prefix("functions: ", errs...)
 }
